@@ -5,9 +5,13 @@ package main
 
 import (
 	"fmt"
+	"io"
+	"net"
+	"os"
 	"sort"
 	"strings"
 	"sync"
+	"sync/atomic"
 	"time"
 
 	"github.com/AstromechZA/etcpwdparse"
@@ -15,11 +19,14 @@ import (
 	"hop.computer/hop/authgrants"
 	"hop.computer/hop/authkeys"
 	"hop.computer/hop/certs"
+	"hop.computer/hop/common"
 	"hop.computer/hop/config"
 	"hop.computer/hop/hopserver"
 	"hop.computer/hop/keys"
 	"hop.computer/hop/pkg/thunks"
+	"hop.computer/hop/portforwarding"
 	"hop.computer/hop/zzverif/seqx"
+	"hop.computer/hop/zzverif/tuberig"
 	"hop.computer/hop/zzverif/vk"
 )
 
@@ -236,6 +243,145 @@ func exec(path []ev) seqx.Step {
 	return seqx.Step{Key: fmt.Sprintf("%s|clock=%d|%s", s.VerifGrantState(), now-T, strings.Join(rk, ","))}
 }
 
+// ---- L2: what the session's tube dispatch does for the other action kinds ----
+
+// dispatchSlice drives the real handlers hopSession.start dispatches non-exec tubes to (handleAgc
+// for further grant issuing, startPF for port forwarding) on sessions of every admission kind,
+// over a real tube of a free-running in-memory muxer pair, and observes whether the action was
+// started: a new grant in the server's map / the server dialling the requested service.
+func dispatchSlice(r *vk.Run) {
+	var k9 keys.DHPublicKey
+	for j := range k9 {
+		k9[j] = byte(200 + j)
+	}
+	dleaf, _ := certs.SelfSignLeaf(&certs.Identity{PublicKey: k9, Names: []certs.Name{certs.RawStringName("further-delegate")}})
+	type sessKind struct {
+		name    string
+		grant   bool
+		actions []authgrants.Authgrant
+	}
+	mkAct := func(t authgrants.GrantType, cmd string) authgrants.Authgrant {
+		a := authgrants.Authgrant{GrantType: t, StartTime: time.Unix(0, 0), ExpTime: time.Unix(1<<40, 0)}
+		a.AssociatedData.CommandGrantData.Cmd = cmd
+		return a
+	}
+	kinds := []sessKind{
+		{"admitted by authorized key", false, nil},
+		{"admitted by a shell grant", true, []authgrants.Authgrant{mkAct(authgrants.Shell, "")}},
+		{"admitted by a command grant", true, []authgrants.Authgrant{mkAct(authgrants.Command, "a")}},
+		{"admitted by a grant that is already used", true, nil},
+	}
+	intents := []struct {
+		name string
+		t    authgrants.GrantType
+		cmd  string
+	}{{"shell", authgrants.Shell, ""}, {"command x", authgrants.Command, "x"}, {"command a", authgrants.Command, "a"}}
+	dir, err := os.MkdirTemp(os.Getenv("VERIF_TMP"), "c07pf")
+	if err != nil {
+		r.EngineError("temp dir: %v", err)
+		return
+	}
+	defer os.RemoveAll(dir)
+	n := 0
+	for _, sk := range kinds {
+		// (1) further grant issuing
+		for _, in := range intents {
+			r.Eval()
+			n++
+			sock := "/nonexistent/agproxy.sock"
+			s, _ := hopserver.NewHopServerExt(nil, &config.ServerConfig{EnableAuthgrants: true, AgProxyListenSocket: &sock}, authkeys.NewSyncAuthKeySet())
+			vs := s.VerifNewSession("u1", sk.grant, append([]authgrants.Authgrant{}, sk.actions...))
+			vs.SetPeerLeaf(&leaf[1])
+			m := tuberig.NewMuxers(0)
+			ct, st, err := m.ReliablePair(common.AuthGrantTube)
+			if err != nil {
+				r.EngineError("tube: %v", err)
+				m.Stop()
+				continue
+			}
+			done := make(chan struct{})
+			go func() { defer close(done); vs.HandleAgc(st) }()
+			intent := authgrants.Intent{GrantType: in.t, TargetUsername: "u1", TargetSNI: certs.DNSName("target.example"), DelegateCert: *dleaf, StartTime: time.Unix(T-100, 0), ExpTime: time.Unix(T+100000, 0)}
+			intent.AssociatedData.CommandGrantData.Cmd = in.cmd
+			var reply string
+			atClock(T, func() {
+				authgrants.WriteIntentCommunication(ct, intent)
+				ct.SetReadDeadline(time.Now().Add(20 * time.Second))
+				msg, err := authgrants.ReadConfOrDenial(ct)
+				switch {
+				case err != nil:
+					reply = "no answer: " + err.Error()
+				case msg.MsgType == authgrants.IntentConfirmation:
+					reply = "confirmed"
+				default:
+					reply = "denied"
+				}
+			})
+			ct.Close()
+			m.Stop()
+			<-done
+			stored := strings.Contains(s.VerifGrantState(), fmt.Sprintf("%x", k9[:4]))
+			r.Distinct(fmt.Sprintf("agc|%s|%s|%s|%v", sk.name, in.name, reply, stored))
+			if sk.grant && (stored || reply == "confirmed") {
+				r.Violation("l2:further-grant-issued:"+strings.ReplaceAll(sk.name, " ", "-"), fmt.Sprintf("a session %s (remaining grants: %d) opened an authorization-grant tube and had a %s grant for another key issued on this server (answer %q, grant stored=%v): no grant of the session covers issuing grants", sk.name, len(sk.actions), in.name, reply, stored), map[string]any{"session": sk.name, "intent": in.name})
+			}
+		}
+		// (2) port forwarding: ask the server to reach a service (a unix socket we listen on)
+		r.Eval()
+		n++
+		path := fmt.Sprintf("%s/svc%d.sock", dir, n)
+		ln, err := net.Listen("unix", path)
+		if err != nil {
+			r.Cap(fmt.Sprintf("port-forwarding slice skipped for %q: cannot listen on a unix socket here: %v", sk.name, err))
+			continue
+		}
+		var dialled atomic.Bool
+		go func() {
+			for {
+				c, err := ln.Accept()
+				if err != nil {
+					return
+				}
+				dialled.Store(true)
+				c.Close()
+			}
+		}()
+		sock := "/nonexistent/agproxy.sock"
+		s, _ := hopserver.NewHopServerExt(nil, &config.ServerConfig{EnableAuthgrants: true, AgProxyListenSocket: &sock}, authkeys.NewSyncAuthKeySet())
+		vs := s.VerifNewSession("u1", sk.grant, append([]authgrants.Authgrant{}, sk.actions...))
+		m := tuberig.NewMuxers(0)
+		ct, st, err := m.ReliablePair(common.PFControlTube)
+		if err != nil {
+			r.EngineError("tube: %v", err)
+			m.Stop()
+			ln.Close()
+			continue
+		}
+		done := make(chan struct{})
+		go func() { defer close(done); vs.StartPF(st, m.Server) }()
+		ct.Write(portforwarding.VerifToBytes(&net.UnixAddr{Name: path, Net: "unix"}, portforwarding.PfLocal))
+		ct.SetReadDeadline(time.Now().Add(20 * time.Second))
+		ans := make([]byte, 1)
+		_, rerr := io.ReadFull(ct, ans)
+		<-done
+		ct.Close()
+		m.Stop()
+		// success (1) is only written after the server's dial to the service succeeded; the
+		// accept side of that connection may lag, so it is awaited rather than sampled
+		started := rerr == nil && ans[0] == 1
+		for i := 0; started && !dialled.Load() && i < 500; i++ {
+			time.Sleep(10 * time.Millisecond)
+		}
+		sawConn := dialled.Load()
+		ln.Close()
+		r.Distinct(fmt.Sprintf("pf|%s|%v|%v|%v|%v", sk.name, ans[0], rerr, started, sawConn))
+		if sk.grant && started {
+			r.Violation("l2:port-forwarding-started:"+strings.ReplaceAll(sk.name, " ", "-"), fmt.Sprintf("a session %s (remaining grants: %d) opened a port-forwarding control tube and the server dialled the requested service and answered %d: no grant of the session covers port forwarding", sk.name, len(sk.actions), ans[0]), map[string]any{"session": sk.name, "action": "local port forward"})
+		}
+	}
+	r.Set("dispatch_slice_cases", n)
+}
+
 func main() {
 	r := vk.New("C07", "model_checking")
 	for i := 1; i <= 2; i++ {
@@ -326,6 +472,7 @@ func main() {
 	}
 	r.Graph(st.States, st.Transitions, st.Transitions)
 	r.Set("bfs_depth_completed", st.MaxDepth)
+	dispatchSlice(r)
 	r.Sample("add(cmd-a,current,u1/k1) login(u1/k1) req(s0,\"a\",pty=false) req(s0,\"a\",pty=false)")
 	r.Assume("handler level: the gate is checkCmd as startCodex applies it to grant-admitted sessions; the dispatch of other tube kinds is checked by the L2 slice")
 	r.Finish()
